@@ -743,24 +743,32 @@ def stream_hardening(ctx):
     # ---- InteractionOperator: dtypes, order, constants, state
     dts = [numpy.int32, numpy.int64, numpy.float32, numpy.float64, numpy.complex64, numpy.complex128]
     rows = []
-    for _ in range(budget(ctx.tier, 60, 800)):
+    for _ in range(budget(ctx.tier, 140, 1200)):
         nq = rng.choice([1, 2, 3, 3, 4, 5])
         dt = rng.choice(dts)
-        integral = dt in (numpy.int32, numpy.int64)
+        # the one-body tensor may have ANOTHER dtype than the two-body tensor (int hopping matrix with
+        # float64 / complex128 interaction, float32 with float64, complex64 with complex128, ...)
+        dt1 = rng.choice(dts) if rng.random() < 0.6 else dt
 
-        def val():
+        def val(d):
             if rng.random() < 0.5:
                 return 0
-            v = rng.choice([1, -1, 2, 3, -4]) if integral else rng.choice([1.0, -0.5, 2.0, 1.5, 2.0 ** -15, -2.0 ** -20])
-            if dt in (numpy.complex64, numpy.complex128) and rng.random() < 0.6:
+            if d in (numpy.int32, numpy.int64):
+                return rng.choice([1, -1, 2, 3, -4])
+            v = rng.choice([1.0, -0.5, 2.0, 1.5, 2.5, -0.25, 2.0 ** -15, -2.0 ** -20])
+            if d in (numpy.complex64, numpy.complex128) and rng.random() < 0.6:
                 v = complex(0.0, v) if rng.random() < 0.4 else complex(v, rng.choice([1.0, -0.5]))
             return v
-        one = numpy.array([val() for _x in range(nq * nq)], dtype=dt).reshape((nq, nq))
-        two = numpy.array([val() for _x in range(nq ** 4)], dtype=dt).reshape((nq,) * 4)
+        if rng.random() < 0.15 and dt1 in (numpy.int32, numpy.int64):
+            one = numpy.eye(nq, dtype=dt1)
+        else:
+            one = numpy.array([val(dt1) for _x in range(nq * nq)], dtype=dt1).reshape((nq, nq))
+        two = numpy.array([val(dt) for _x in range(nq ** 4)], dtype=dt).reshape((nq,) * 4)
         if rng.random() < 0.4:
             one, two = numpy.asfortranarray(one), numpy.asfortranarray(two)
         const = rng.choice([1, 0.5, 2 - 1j, numpy.complex64(1 + 2j), numpy.float32(0.5), 1j, numpy.int64(3), True])
-        case = {'n': nq, 'dtype': dt.__name__, 'fortran': bool(two.flags['F_CONTIGUOUS'] and nq > 1),
+        case = {'n': nq, 'dtype': dt.__name__, 'dtype_one_body': dt1.__name__,
+                'fortran': bool(two.flags['F_CONTIGUOUS'] and nq > 1),
                 'constant': to_gq(const), 'constant_type': type(const).__name__,
                 'one_body': [to_gq(x) for x in one.reshape(-1)], 'two_body': [to_gq(x) for x in two.reshape(-1)]}
         one0, two0 = one.copy(), two.copy()
@@ -788,7 +796,11 @@ def stream_hardening(ctx):
         if snap2 != snap:
             s.violate('second normal_ordered(InteractionOperator) differs from the first (first result was modified in place)', case, {})
         if snap[1] != case['one_body'] or snap[2] != case['constant']:
-            s.violate('normal_ordered(InteractionOperator) changed the constant / one-body part', case, {})
+            s.violate('normal_ordered(InteractionOperator) changed the constant / one-body part', case,
+                      {'one_body': snap[1], 'constant': snap[2]})
+        if r2.one_body_tensor.dtype != one0.dtype or r2.two_body_tensor.dtype != two0.dtype:
+            s.violate('normal_ordered(InteractionOperator) changed a tensor dtype', case,
+                      {'one_body': str(r2.one_body_tensor.dtype), 'two_body': str(r2.two_body_tensor.dtype)})
         rows.append((case, nq, const, one0, two0, r2))
     reqs = []
     for case, nq, const, one0, two0, r2 in rows:
@@ -802,7 +814,7 @@ def stream_hardening(ctx):
     ans = ctx.driver.run(reqs)
     for i, (case, nq, const, one0, two0, r2) in enumerate(rows):
         s.case(case)
-        s.count('interaction:%s:n=%d%s' % (case['dtype'], nq, ':F' if case['fortran'] else ''))
+        s.count('interaction:one=%s:two=%s' % (case['dtype_one_body'], case['dtype']))
         got = [to_gq(x) for x in r2.two_body_tensor.reshape(-1)]
         if [tuple(x) for x in ans[2 * i]] != [tuple(x) for x in got]:
             s.disagree('normal_ordered(InteractionOperator).two_body_tensor (dtype %s)' % case['dtype'], case, got, ans[2 * i])
